@@ -10,6 +10,7 @@ from flowmark.linewrapping.tag_handling import add_tag_newline_handling
 from flowmark.linewrapping.text_filling import DEFAULT_WRAP_WIDTH
 from flowmark.linewrapping.text_wrapping import (
     DEFAULT_LEN_FUNCTION,
+    get_html_md_word_splitter,
     markdown_escape_word,
     wrap_paragraph,
     wrap_paragraph_lines,
@@ -50,7 +51,14 @@ def _escape_leading_word(text: str) -> str:
     match = _leading_word_re.match(text)
     if not match:
         return text
-    return match.group(1) + markdown_escape_word(match.group(2)) + text[match.end() :]
+    word = match.group(2)
+    # A word is what the wrapper takes for one: a code span or link that begins the segment
+    # is a single word even if it contains spaces (```` ```a b``c``` ```` is a code span,
+    # not a fence followed by text).
+    words = get_html_md_word_splitter()(text)
+    if words and len(words[0]) > len(word) and text.startswith(words[0], match.end(1)):
+        word = words[0]
+    return match.group(1) + markdown_escape_word(word) + text[match.end(1) + len(word) :]
 
 
 def _add_markdown_hard_break_handling(base_wrapper: LineWrapper) -> LineWrapper:
